@@ -117,6 +117,11 @@ class C12(ParserSessionProp):
             for _ in range(rng.randint(2, 3)):
                 inter.append({'format': rng.choice(READABLE.get(lang, ['auto'])), 'lang': rng.choice(['en', 'ja'])})
         spec['reader_interleave'] = {'readers': inter, 'seed': rng.getrandbits(30)}
+        # F11: for one file of every third run the reading is repeated under every stack budget between "fails at
+        # once" and "succeeds", i.e. the interpreter's recursion limit is hit at every possible point of the reader
+        srng = gen.stream(seed, self.id + ':stack', index)
+        if plan and srng.random() < 0.34:
+            srng.choice(plan)['stack_scan'] = True
         return spec
 
     def twin_trees(self, parsed, lang):
@@ -205,10 +210,68 @@ class C12(ParserSessionProp):
                     if v is not None:
                         out.append(v)
                         return out, log
+                if step.get('stack_scan'):
+                    v = self.stack_scan(path, fmt, readers, step, grammar, stats, log)
+                    if v is not None:
+                        out.append(v)
+                        return out, log
         finally:
             set_global_language_to(saved_lang)
             shutil.rmtree(d, ignore_errors=True)
         return out, log
+
+    def stack_scan(self, path, fmt, readers, step, grammar, stats, log):
+        """F11 (stack exhaustion at an arbitrary point): the file is read again under every recursion limit from a few
+        frames above the current depth upwards until a reading succeeds three times in a row.  Each reading either
+        raises (RecursionError, or whatever the reader turns it into) or yields trees -- and trees that are yielded
+        must be labelled by the grammar like any others"""
+        import sys
+        from depccg.lang import set_global_language_to
+        from depccg.tools import reader as R
+        depth = 0
+        fr = sys._getframe()
+        while fr is not None:
+            depth += 1
+            fr = fr.f_back
+        limit0 = sys.getrecursionlimit()
+        active = step['consume_lang']
+        ok_in_a_row = 0
+        try:
+            for extra in range(6, 400):
+                set_global_language_to(step['create_lang'])
+                sys.setrecursionlimit(depth + extra)
+                try:
+                    it = R.read_trees_guess_extension(path) if step.get('guess_extension') else readers[fmt](path)
+                    set_global_language_to(active)
+                    items = list(it)
+                except RecursionError:
+                    sys.setrecursionlimit(limit0)
+                    bump(stats, 'fault:F11_reader_hit_the_stack_limit')
+                    ok_in_a_row = 0
+                    continue
+                except Exception as e:  # noqa
+                    sys.setrecursionlimit(limit0)
+                    bump(stats, 'fault:F11_reader_hit_the_stack_limit')
+                    bump(stats, 'stack_limit_surfaced_as:' + type(e).__name__)
+                    ok_in_a_row = 0
+                    continue
+                sys.setrecursionlimit(limit0)
+                bump(stats, 'readings_under_a_stack_budget')
+                for item in items:
+                    v = self.check_read_tree(item.tree, grammar[active], fmt, active, stats)
+                    if v is not None:
+                        v['message'] = (f'read under a stack budget of {extra} frames (other budgets raise RecursionError or '
+                                        f'read correctly): ' + v['message'])
+                        v['signature'] = dict(v['signature'], after='F11')
+                        log.append((fmt, 'stack_scan', extra, 'bad'))
+                        return v
+                ok_in_a_row += 1
+                if ok_in_a_row >= 3:
+                    log.append((fmt, 'stack_scan', extra))
+                    break
+        finally:
+            sys.setrecursionlimit(limit0)
+        return None
 
     def interleave_stage(self, parsed, lang, inter, stats):
         """S7 as a schedule: k lazy readers are alive at once; before every next() the simulator sets the
